@@ -438,6 +438,9 @@ class CongClosureHOL:
         
         def get_proofterm(u, v):
             """Get proof term corresponding to u = v."""
+            if u == v:
+                # Nothing to explain: the closure records no path for u = u
+                return ProofTerm.reflexive(self.index[u])
             path = explain[(u, v)]
             cur_pos = u
             pt = ProofTerm.reflexive(self.index[u])
